@@ -1,3 +1,438 @@
 package main
 
-func runC14B() {}
+// C14 part (b): variable precedence as seen on the launched command line
+// (arguments, environment) and in the CONFIGURE properties of a task.
+
+import (
+	"fmt"
+	"os"
+	"sort"
+	"strings"
+	"time"
+
+	pb "github.com/AliceO2Group/Control/core/protos"
+
+	"verif/harness/coresim"
+	simmesos "verif/harness/sim/mesos"
+	"verif/harness/vlib"
+)
+
+const c14Keys = 6
+
+type c14Task struct {
+	Path   string              `json:"path"`
+	Mode   string              `json:"mode"`
+	Fields map[string][]string `json:"fields"` // key -> subset of {arg, env, prop}
+}
+
+type c14Scenario struct {
+	Index       int               `json:"index"`
+	Root        *roleSpec         `json:"workflow"`
+	EnvVars     map[string]string `json:"consul_vars"`
+	EnvDefaults map[string]string `json:"consul_defaults"`
+	UserVars    map[string]string `json:"user_vars"`
+	Tasks       []c14Task         `json:"tasks"`
+}
+
+func c14Key(i int) string { return fmt.Sprintf("ck%d", i) }
+
+// tag is the unique value a source gives a key; "" for an empty definition.
+func c14Tag(src, key string, empty bool) string {
+	if empty {
+		return ""
+	}
+	return src + "~" + key
+}
+
+func c14Gen(c *vlib.Ctx, idx int) c14Scenario {
+	r := scRand(c, 1414, idx)
+	sc := c14Scenario{Index: idx, EnvVars: map[string]string{}, EnvDefaults: map[string]string{}, UserVars: map[string]string{}}
+	wf := fmt.Sprintf("c14w%d", idx)
+	root := &roleSpec{Name: wf, Defaults: []kv{{"hosts", `["host1"]`}, {"deploy_timeout", "60s"}}}
+	sc.Root = root
+	// chain of aggregators below the root: 0-2
+	depth := r.Intn(3)
+	cur := root
+	var aggs []*roleSpec
+	for d := 0; d < depth; d++ {
+		a := &roleSpec{Name: fmt.Sprintf("a%d", d+1)}
+		cur.Children = append(cur.Children, a)
+		aggs = append(aggs, a)
+		cur = a
+	}
+	nTasks := 1 + r.Intn(3)
+	var troles []*roleSpec
+	for t := 0; t < nTasks; t++ {
+		// tasks hang at the deepest aggregator, sometimes higher
+		parent := cur
+		if t > 0 && len(aggs) > 0 && r.Intn(4) == 0 {
+			parent = aggs[r.Intn(len(aggs))]
+			if r.Intn(2) == 0 {
+				parent = root
+			}
+		}
+		tpl := &tplSpec{Name: fmt.Sprintf("%s-t%d", wf, t), Mode: []string{"fairmq", "direct", "basic"}[r.Intn(3)]}
+		if t == 0 && tpl.Mode == "basic" {
+			tpl.Mode = "direct"
+		}
+		role := &roleSpec{Name: fmt.Sprintf("t%d", t), Task: tpl, Critical: true, Constraints: []kv{{"machine_id", "host1"}}}
+		parent.Children = append(parent.Children, role)
+		troles = append(troles, role)
+	}
+	root.link(nil)
+	// place the keys
+	state := func(density int) int { // 0 absent, 1 present, 2 empty
+		if r.Intn(100) >= density {
+			return 0
+		}
+		if r.Intn(4) == 0 {
+			return 2
+		}
+		return 1
+	}
+	for k := 0; k < c14Keys; k++ {
+		key := c14Key(k)
+		density := []int{8, 20, 40, 65}[r.Intn(4)]
+		put := func(dst *[]kv, src string) {
+			d := density
+			if strings.HasPrefix(src, "vars@") {
+				d = density * 2 / 3
+			}
+			if st := state(d); st != 0 {
+				*dst = append(*dst, kv{key, c14Tag(src, key, st == 2)})
+			}
+		}
+		putm := func(dst map[string]string, src string) {
+			d := density * 2 / 3
+			if src == "user" {
+				d = density / 3
+			}
+			if st := state(d); st != 0 {
+				dst[key] = c14Tag(src, key, st == 2)
+			}
+		}
+		putm(sc.UserVars, "user")
+		putm(sc.EnvVars, "vars@env")
+		putm(sc.EnvDefaults, "defaults@env")
+		put(&root.Vars, "vars@root")
+		put(&root.Defaults, "defaults@root")
+		for _, a := range aggs {
+			put(&a.Vars, "vars@"+a.Name)
+			put(&a.Defaults, "defaults@"+a.Name)
+		}
+		for _, tr := range troles {
+			put(&tr.Vars, "vars@"+tr.Name)
+			put(&tr.Defaults, "defaults@"+tr.Name)
+			put(&tr.Task.Vars, "tpl-vars@"+tr.Name)
+			put(&tr.Task.Defaults, "tpl-defaults@"+tr.Name)
+		}
+	}
+	// every key a task references must be defined somewhere for it (an undefined name is a template error)
+	for _, tr := range troles {
+		ct := c14Task{Path: tr.path, Mode: tr.Task.Mode, Fields: map[string][]string{}}
+		for k := 0; k < c14Keys; k++ {
+			key := c14Key(k)
+			if _, _, ok := c14Resolve(&sc, tr, key); !ok {
+				if r.Intn(2) == 0 {
+					tr.Task.Defaults = append(tr.Task.Defaults, kv{key, c14Tag("tpl-defaults@"+tr.Name, key, false)})
+				} else {
+					tr.Task.Vars = append(tr.Task.Vars, kv{key, c14Tag("tpl-vars@"+tr.Name, key, false)})
+				}
+			}
+			var fs []string
+			for _, f := range []string{"arg", "env", "prop"} {
+				if f == "prop" && tr.Task.Mode == "basic" {
+					continue
+				}
+				if r.Intn(3) != 0 {
+					fs = append(fs, f)
+				}
+			}
+			if len(fs) == 0 {
+				fs = []string{"arg"}
+			}
+			ct.Fields[key] = fs
+			for _, f := range fs {
+				switch f {
+				case "arg":
+					tr.Task.Args = append(tr.Task.Args, fmt.Sprintf("--%s=[{{ %s }}]", key, key))
+				case "env":
+					tr.Task.Env = append(tr.Task.Env, fmt.Sprintf("%s=[{{ %s }}]", strings.ToUpper(key), key))
+				case "prop":
+					tr.Task.Properties = append(tr.Task.Properties, kv{"p_" + key, fmt.Sprintf("[{{ %s }}]", key)})
+				}
+			}
+		}
+		sc.Tasks = append(sc.Tasks, ct)
+	}
+	return sc
+}
+
+// c14Resolve is the reference resolver written from the statement. It returns the
+// accepted values (more than one only when the template's own defaults and vars
+// both define the key and nothing from the workflow does), and the winning source.
+func c14Resolve(sc *c14Scenario, tr *roleSpec, key string) (vals []string, src string, ok bool) {
+	if v, ok := sc.UserVars[key]; ok {
+		return []string{v}, "user", true
+	}
+	chain := tr.chain() // role, ancestors..., root
+	name := func(i int, p *roleSpec) string {
+		switch {
+		case i == 0:
+			return "role"
+		case p.parent == nil:
+			return "root"
+		default:
+			return fmt.Sprintf("anc%d", i)
+		}
+	}
+	for i, p := range chain {
+		if v, ok := kvGet(p.Vars, key); ok {
+			return []string{v}, "vars@" + name(i, p), true
+		}
+	}
+	if v, ok := sc.EnvVars[key]; ok {
+		return []string{v}, "vars@env", true
+	}
+	for i, p := range chain {
+		if v, ok := kvGet(p.Defaults, key); ok {
+			return []string{v}, "defaults@" + name(i, p), true
+		}
+	}
+	if v, ok := sc.EnvDefaults[key]; ok {
+		return []string{v}, "defaults@env", true
+	}
+	tv, okV := kvGet(tr.Task.Vars, key)
+	td, okD := kvGet(tr.Task.Defaults, key)
+	switch {
+	case okV && okD:
+		return []string{tv, td}, "tpl-vars|tpl-defaults", true
+	case okV:
+		return []string{tv}, "tpl-vars", true
+	case okD:
+		return []string{td}, "tpl-defaults", true
+	}
+	return nil, "", false
+}
+
+// c14Decode names the source a seen value came from (canonical, relative to the task role).
+func c14Decode(sc *c14Scenario, tr *roleSpec, key, val string) string {
+	if val == "" {
+		return "empty"
+	}
+	i := strings.LastIndex(val, "~")
+	if i < 0 || val[i+1:] != key {
+		return "unknown"
+	}
+	src := val[:i]
+	at := strings.SplitN(src, "@", 2)
+	if len(at) != 2 {
+		return src // user
+	}
+	if at[1] == "env" {
+		return src
+	}
+	if strings.HasPrefix(at[0], "tpl-") {
+		if at[1] == tr.Name {
+			return at[0]
+		}
+		return at[0] + "@other-task"
+	}
+	for i, p := range tr.chain() {
+		if p.Name == at[1] || (p.parent == nil && at[1] == "root") {
+			switch {
+			case i == 0:
+				return at[0] + "@role"
+			case p.parent == nil:
+				return at[0] + "@root"
+			default:
+				return fmt.Sprintf("%s@anc%d", at[0], i)
+			}
+		}
+	}
+	return at[0] + "@other-branch"
+}
+
+func runC14B() {
+	c := vlib.Start("C14B")
+	defer c.Finish()
+	n := 40
+	if c.Tier == "thorough" {
+		n = 320
+	}
+	lo, hi := only(c.Slice(n))
+	parallel(lo, hi, 3, func(i int) { c14Run(c, i) })
+}
+
+type c14Obs struct {
+	Scenario c14Scenario         `json:"scenario"`
+	Steps    []string            `json:"steps"`
+	Seen     map[string][]string `json:"seen"` // role path -> arguments, env, properties as received
+}
+
+func c14Run(c *vlib.Ctx, idx int) {
+	sc := c14Gen(c, idx)
+	id := c.Case(map[string]interface{}{"index": idx, "scenario": sc})
+	if idx%13 == 2 {
+		c.Sample(sc)
+	}
+	obs := &c14Obs{Scenario: sc, Seen: map[string][]string{}}
+	agents := []*simmesos.Agent{{ID: "agent-host1", Hostname: "host1", Attributes: map[string]string{"machine_id": "host1"}, CPU: 16, Mem: 16384, Ports: [][2]uint64{{9000, 9200}, {30000, 30200}}}}
+	s, err := coresim.Start(coresim.Options{Agents: agents, Detectors: map[string][]string{"TST": {"host1"}}, Files: sc.Root.files(), Vars: sc.EnvVars, Defaults: sc.EnvDefaults})
+	if err != nil {
+		c.Inconclusive("coresim start: " + truncate(err.Error(), 4000))
+		return
+	}
+	s.Master.OnLaunch = func(t *simmesos.LaunchedTask) simmesos.LaunchPlan {
+		return simmesos.LaunchPlan{Kind: "running", Delay: 30 * time.Millisecond}
+	}
+	s.Master.OfferDelay = offerDelay()
+	defer func() {
+		if debugOn() {
+			fs := sc.Root.files()
+			ks := sortedKeys(fs)
+			for _, k := range ks {
+				fmt.Println("#", k)
+				fmt.Println(fs[k])
+			}
+			fmt.Println(jsonS(sc.UserVars), jsonS(sc.EnvVars), jsonS(sc.EnvDefaults))
+			fmt.Println(strings.Join(obs.Steps, "\n"))
+			fmt.Println(jsonS(obs.Seen))
+		}
+		finishSim(c, s, id, obs)
+		s.Close()
+	}()
+	ctx, cancel := coresim.Ctx(150 * time.Second)
+	t0 := time.Now()
+	uv := map[string]string{}
+	for k, v := range sc.UserVars {
+		uv[k] = v
+	}
+	_, cerr := s.Client.NewEnvironment(ctx, &pb.NewEnvironmentRequest{WorkflowTemplate: sc.Root.Name, Vars: uv})
+	cancel()
+	msg := grpcMsg(cerr)
+	obs.Steps = append(obs.Steps, fmt.Sprintf("NewEnvironment err=%q in %s", truncate(msg, 500), time.Since(t0).Round(time.Millisecond)))
+	if d := time.Since(t0); d > 30*time.Second {
+		fmt.Fprintf(os.Stderr, "C14B scenario %d slow: %s\n", idx, strings.Join(obs.Steps, " | "))
+	}
+	c.Count("environments_driven", 1)
+	if cerr != nil {
+		c.Inconclusive(fmt.Sprintf("scenario %d: environment creation failed: %s", idx, truncate(msg, 400)))
+		return
+	}
+	byPath := map[string]simmesos.LaunchedTask{}
+	for _, t := range s.Master.Tasks() {
+		byPath[t.RolePath] = t
+	}
+	winners := map[string]bool{}
+	for _, tr := range sc.Root.taskRoles() {
+		mt, ok := byPath[tr.path]
+		if !ok {
+			c.Inconclusive(fmt.Sprintf("scenario %d: task %s not launched", idx, tr.path))
+			continue
+		}
+		c.Count("tasks_checked", 1)
+		var args, envs []string
+		if l, ok := mt.Cmd["arguments"].([]interface{}); ok {
+			for _, a := range l {
+				args = append(args, fmt.Sprint(a))
+			}
+		}
+		if l, ok := mt.Cmd["env"].([]interface{}); ok {
+			for _, a := range l {
+				envs = append(envs, fmt.Sprint(a))
+			}
+		}
+		var props map[string]string
+		for _, cmd := range mt.Commands {
+			if cmd.Event == "CONFIGURE" {
+				props = cmd.Arguments
+			}
+		}
+		var pl []string
+		for k, v := range props {
+			if strings.HasPrefix(k, "p_") {
+				pl = append(pl, k+"="+v)
+			}
+		}
+		sort.Strings(pl)
+		obs.Seen[tr.path] = append(append(append([]string{"ARGS"}, args...), append([]string{"ENV"}, envs...)...), append([]string{"PROPS"}, pl...)...)
+		var fields map[string][]string
+		for _, ct := range sc.Tasks {
+			if ct.Path == tr.path {
+				fields = ct.Fields
+			}
+		}
+		for k := 0; k < c14Keys; k++ {
+			key := c14Key(k)
+			want, src, _ := c14Resolve(&sc, tr, key)
+			winners[src] = true
+			c.Count("keys_resolved", 1)
+			c.Count("winner_"+strings.SplitN(src, "@", 2)[0], 1)
+			if len(want) == 1 && want[0] == "" {
+				c.Count("winner_is_empty_definition", 1)
+			}
+			if strings.HasPrefix(src, "tpl-") {
+				c.Count("keys_from_template_only", 1)
+			} else if _, ok := kvGet(tr.Task.Defaults, key); ok {
+				c.Count("workflow_over_template_default", 1)
+			} else if _, ok := kvGet(tr.Task.Vars, key); ok {
+				c.Count("workflow_over_template_var", 1)
+			}
+			for _, f := range fields[key] {
+				got, found := "", false
+				switch f {
+				case "arg":
+					got, found = findProbe(args, "--"+key+"=[")
+				case "env":
+					got, found = findProbe(envs, strings.ToUpper(key)+"=[")
+				case "prop":
+					if v, ok := props["p_"+key]; ok && strings.HasPrefix(v, "[") && strings.HasSuffix(v, "]") {
+						got, found = v[1:len(v)-1], true
+					}
+				}
+				where := "cmdline"
+				if f == "prop" {
+					where = "property"
+					c.Count("properties_compared", 1)
+				} else {
+					c.Count("cmdline_values_compared", 1)
+				}
+				if !found {
+					c.Violation("PRECEDENCE", where+"/probe-missing", fmt.Sprintf("task %s: the %s probe for %s is absent from what the task received [scenario %d]", tr.path, f, key, idx), id, obs)
+					continue
+				}
+				okv := false
+				for _, w := range want {
+					if got == w {
+						okv = true
+					}
+				}
+				if !okv {
+					gsrc := c14Decode(&sc, tr, key, got)
+					wsrc := src
+					if len(want) == 1 && want[0] == "" {
+						wsrc += "(empty)"
+					}
+					c.Violation("PRECEDENCE", fmt.Sprintf("%s/want=%s,got=%s", where, wsrc, gsrc),
+						fmt.Sprintf("task %s (%s): %s of %s is %q (from %s); the highest-ranking definition is %s with value %q [scenario %d]", tr.path, tr.Task.Mode, f, key, got, gsrc, src, want, idx), id, obs)
+				}
+			}
+		}
+	}
+	var ws []string
+	for w := range winners {
+		ws = append(ws, w)
+	}
+	sort.Strings(ws)
+	c.Nontrivial(vlib.Hash("c14b", len(sc.Root.taskRoles()), strings.Join(ws, ",")))
+}
+
+func findProbe(list []string, prefix string) (string, bool) {
+	for _, a := range list {
+		if strings.HasPrefix(a, prefix) && strings.HasSuffix(a, "]") {
+			return a[len(prefix) : len(a)-1], true
+		}
+	}
+	return "", false
+}
